@@ -823,6 +823,26 @@ def q6(run: Run, prog, cy, m: Master):
                 first = n.a[1][0]
                 use.setdefault(n.a[0].a[0], set()).add(_classify_cy(first, cls))
         where = wf.where
+        # comparisons between node indices: a chunk-relative counter must not be
+        # compared with an absolute node index (a loop over all N nodes / i_abs)
+        ncmp = 0
+        for n in walk(wf.body):
+            if isinstance(n, X) and n.k == "cmp" and n.a[0] in ("==", "!=") and \
+                    n.a[1].k == "name" and n.a[2].k == "name" and \
+                    n.a[1].a[0] in cls and n.a[2].a[0] in cls:
+                ncmp += 1
+                ca, cb = cls[n.a[1].a[0]], cls[n.a[2].a[0]]
+                okc = not ({ca, cb} in ({"rel", "full"}, {"rel", "abs"}))
+                run.oblige("Q6", f"{key}:compare:{pp(n)}", okc, sample={
+                    "where": f"{wf.module.relpath}:{n.line}", "roles": [ca, cb]})
+                if not okc:
+                    run.add("Q6", f"{key}/compare-roles", f"{wf.module.relpath}:{n.line}",
+                            f"worker {wf.name} compares `{pp(n.a[1])}` ({ca}) with "
+                            f"`{pp(n.a[2])}` ({cb}): a chunk-relative counter is "
+                            f"compared with an absolute node index - identical only "
+                            f"for the chunk that starts at node 0, so every other chunk "
+                            f"of the distributed branch computes something else than "
+                            f"the serial branch")
     else:
         wf = _canon_worker(cy, m)
         params = wf.params
